@@ -30,7 +30,7 @@ Report(e, s1) ==
                          to |-> r.to, frag |-> r.frag, types |-> r.types, k |-> "endrun"]))
     /\ \A r \in s1.lrej :
           PrintT(ToJson([tag |-> "REJECT", pg |-> r.link.pg, n |-> 0, clause |-> "html.link", detail |-> r.why,
-                         href |-> r.link.href, refs |-> r.link.refs, to |-> r.to, inspan |-> r.link.inspan, k |-> "endrun"]))
+                         href |-> r.link.href, refs |-> r.link.refs, to |-> r.to, dir |-> r.dir, inspan |-> r.link.inspan, k |-> "endrun"]))
 
 TInit == l = 1 /\ st = Init0 /\ toks = <<>> /\ seen = {}
 TNext == /\ l <= Len(Trace)
